@@ -20,11 +20,60 @@ package types
 import (
 	"fmt"
 
+	"github.com/arana-db/parser"
 	"github.com/arana-db/parser/ast"
 	"github.com/arana-db/parser/format"
 
 	seatabytes "seata.apache.org/seata-go/pkg/util/bytes"
 )
+
+// singleTable tells whether a table reference names ONE table, and which: a name, possibly with its database, an
+// alias, index hints, a partition list. A join or a list of tables is not one.
+func singleTable(refs *ast.TableRefsClause) (schema, name string, single bool) {
+	if refs == nil || refs.TableRefs == nil || refs.TableRefs.Right != nil {
+		return "", "", false
+	}
+	source, ok := refs.TableRefs.Left.(*ast.TableSource)
+	if !ok {
+		return "", "", false
+	}
+	table, ok := source.Source.(*ast.TableName)
+	if !ok {
+		return "", "", false
+	}
+	return table.Schema.O, table.Name.O, true
+}
+
+// SingleTableOfReference is singleTable for a reference given as the text GetTableName restores
+func SingleTableOfReference(reference string) (schema, name string, single bool) {
+	stmt, err := parser.New().ParseOneStmt("SELECT 1 FROM "+reference, "", "")
+	if err != nil {
+		return "", "", false
+	}
+	sel, ok := stmt.(*ast.SelectStmt)
+	if !ok || sel.From == nil {
+		return "", "", false
+	}
+	return singleTable(sel.From)
+}
+
+// GetSingleTable is the one table a statement is about, when it is about one
+func (p *ParseContext) GetSingleTable() (schema, name string, single bool) {
+	switch {
+	case p.InsertStmt != nil:
+		return singleTable(p.InsertStmt.Table)
+	case p.SelectStmt != nil:
+		return singleTable(p.SelectStmt.From)
+	case p.UpdateStmt != nil:
+		return singleTable(p.UpdateStmt.TableRefs)
+	case p.DeleteStmt != nil:
+		if p.DeleteStmt.IsMultiTable {
+			return "", "", false
+		}
+		return singleTable(p.DeleteStmt.TableRefs)
+	}
+	return "", "", false
+}
 
 type ExecutorType int32
 
